@@ -129,8 +129,16 @@ def d20_region(s, i):
     return any(o["op"] == "report" and o["status"] in ("pending", "paused") for o in s["ops"][:i + 1])
 
 
-def region_of(s, i):
+def rearrival_region(s, i):
+    """D2/D5b: a branch can arrive at a join or with-items task that has already started: count
+    join below all, a cycle plus a join/with-items task, or a rerun upstream of a with-items task"""
     if has_count_join_below_all(s):
+        return True
+    return had_rerun(s, i) and any(t.get("with") is not None for t in s["def"]["tasks"])
+
+
+def region_of(s, i):
+    if rearrival_region(s, i):
         return "D2"
     if d20_region(s, i):
         return "D20"
@@ -267,7 +275,7 @@ def mon_C04(s):
                 out.append(V("offer after terminal status %s: %s" % (term, bad or [o["id"] for o in r["res"]]), i))
         if op["op"] == "report" and raised(r):
             out.append(V("late report raised %s in terminal status %s" % (raised(r), term), i,
-                         "D5b" if raised(r) in ("KeyError", "TypeError", "IndexError") and has_count_join_below_all(s) else None))
+                         "D5b" if raised(r) in ("KeyError", "TypeError", "IndexError") and rearrival_region(s, i) else None))
     return out
 
 
@@ -330,7 +338,7 @@ def mon_C11(s):
             out.append(V("expression error escaped %s" % op["op"], i))
         elif x and op["op"] in ("next", "report", "render") and x not in ("InvalidTask", "InvalidTaskStateEntry"):
             fin = None
-            if x in ("KeyError", "TypeError", "IndexError") and has_count_join_below_all(s):
+            if x in ("KeyError", "TypeError", "IndexError") and rearrival_region(s, i):
                 fin = "D5b"
             if x == "AttributeError" and op["op"] == "rerun":
                 fin = "D14"
@@ -361,7 +369,7 @@ def mon_C12(s):
                 rec = st["sequence"][idx]
                 infl = [k for k in led[i][0] if k[0] == op["task"] and k[1] == op["route"] and k[2] is not None]
                 if rec["status"] in ("succeeded", "failed", "canceled") and infl:
-                    out.append(V("with-items task %s is %s while items %s are in flight" % (op["task"], rec["status"], sorted(k[2] for k in infl)), i))
+                    out.append(V("with-items task %s is %s while items %s are in flight" % (op["task"], rec["status"], sorted(k[2] for k in infl)), i, region_of(s, i)))
                 if rec["status"] in ("succeeded", "failed", "canceled", "retrying"):
                     offered.pop((op["task"], op["route"]), None)
                 if rec["status"] == "succeeded":
@@ -382,9 +390,9 @@ def mon_C12(s):
                 seen = offered.setdefault(k, [])
                 dup = [x for x in ids if x in seen]
                 if dup:
-                    out.append(V("items %s of %s offered twice" % (dup, o["id"]), i))
+                    out.append(V("items %s of %s offered twice" % (dup, o["id"]), i, region_of(s, i)))
                 if ids != sorted(ids) or (seen and ids and min(ids) < max(seen) and not dup):
-                    out.append(V("items of %s offered out of order: %s after %s" % (o["id"], ids, seen), i))
+                    out.append(V("items of %s offered out of order: %s after %s" % (o["id"], ids, seen), i, region_of(s, i)))
                 seen.extend(ids)
                 conc = o["concurrency"]
                 if isinstance(conc, int) and not isinstance(conc, bool):
@@ -538,7 +546,7 @@ def mon_C15(s):
         x = raised(r)
         if x in INTERNAL:
             fin = None
-            if x in ("KeyError", "TypeError", "IndexError") and has_count_join_below_all(s):
+            if x in ("KeyError", "TypeError", "IndexError") and rearrival_region(s, i):
                 fin = "D5b"
             if x == "AttributeError" and op["op"] == "rerun":
                 fin = "D14"
